@@ -8,7 +8,7 @@
 (* exported as JSON, rendered to ASN.1 text by the glue, and read back by  *)
 (* the trace specifications.                                               *)
 (***************************************************************************)
-EXTENDS BigInt, FiniteSets, TLC
+EXTENDS BigInt, TimeText, FiniteSets, TLC
 
 \* ---- bounds and constraint expressions ------------------------------------
 BMin == [k |-> "MIN"]
@@ -222,6 +222,8 @@ NormVal(env, T0, v) ==
                ELSE Absent]
     [] ChoiceLike(T.k) -> MkAlt(AltOf(v), NormVal(env, CompByName(T, AltOf(v)).t, AltVal(v)))
     [] T.k \in {"SEQOF", "SETOF"} -> [i \in DOMAIN v |-> NormVal(env, T.t, v[i])]
+    \* time values are instants: every text form of the same instant is the same value (TimeText.tla)
+    [] T.k = "STRING" -> CanonTime(T.st, v)
     [] OTHER -> v
 
 \* equality of abstract values: absent DEFAULT components denote the default value,
@@ -244,7 +246,20 @@ SameValue(env, T0, a, b) ==
          /\ \A i \in DOMAIN a :
               Cardinality({j \in DOMAIN a : SameValue(env, T.t, a[j], a[i])})
                 = Cardinality({j \in DOMAIN b : SameValue(env, T.t, b[j], a[i])})
+    [] T.k = "STRING" -> CanonTime(T.st, a) = CanonTime(T.st, b)
     [] OTHER -> a = b
+
+\* the value with every time leaf in its canonical text (nothing else changed), and whether it already is
+RECURSIVE CanonTimes(_, _, _)
+CanonTimes(env, T0, v) ==
+  LET T == Resolve(env, T0) IN
+  CASE T.k \in {"SEQUENCE", "SET"} ->
+         LET cs == AllComps(T) IN [i \in DOMAIN cs |-> IF IsPres(v[i]) THEN Pres(CanonTimes(env, cs[i].t, v[i][1])) ELSE v[i]]
+    [] ChoiceLike(T.k) -> MkAlt(AltOf(v), CanonTimes(env, CompByName(T, AltOf(v)).t, AltVal(v)))
+    [] T.k \in {"SEQOF", "SETOF"} -> [i \in DOMAIN v |-> CanonTimes(env, T.t, v[i])]
+    [] T.k = "STRING" -> CanonTime(T.st, v)
+    [] OTHER -> v
+TimeTextCanonical(env, T, v) == CanonTimes(env, T, v) = v
 
 BitsWellFormed(b) == /\ Len(b.o) = (b.n + 7) \div 8
                      /\ (b.n % 8 # 0 => b.o[Len(b.o)] % (2^(8 - (b.n % 8))) = 0)
